@@ -119,6 +119,9 @@ func runCase(c Case, st *Stats) *ev.Failure {
 		}
 		setID := uint16(pkt[16])<<8 | uint16(pkt[17])
 		setLen := int(pkt[18])<<8 | int(pkt[19])
+		if n := len(dr.Msg.GetSet().GetRecords()); int(h.Length) == len(pkt) && setID >= 256 && setLen < 4 && n > 0 {
+			return ev.Failf("packet %d: %d records were delivered for a data set whose length field says %d, less than its own 4-byte header: they were made of the %d bytes that follow the set in the message", i, n, setLen, len(pkt)-20)
+		}
 		// the set body is what the set's own length field covers; further sets may follow it
 		consistent := int(h.Length) == len(pkt) && setLen >= 4 && setLen <= len(pkt)-16
 		body := pkt[20:]
